@@ -636,6 +636,14 @@ func (env *Env) evalSel(x *ESel) (*Val, error) {
 			}
 		}
 	}
+	// s[i].f / s[i].f.g on a slice of structs: load only the selected field (loading the whole element would emit the
+	// typing facts of every leaf of the struct)
+	if loc := env.elemFieldLoc(x); loc != nil {
+		if loc.Kind == 'A' {
+			return e.loadArray(env.st, loc), nil
+		}
+		return e.loadLoc(env.st, loc), nil
+	}
 	v, err := env.eval(x.X)
 	if err != nil {
 		return nil, err
@@ -687,6 +695,58 @@ func (env *Env) evalSel(x *ESel) (*Val, error) {
 	return nil, fmt.Errorf("cannot select %s from %s", x.Name, typeStr(v.T))
 }
 
+// elemFieldLoc: the location of x = s[i].f1...fn when s is a slice whose elements are transparent structs (nil otherwise).
+func (env *Env) elemFieldLoc(x *ESel) *Loc {
+	e := env.e
+	var names []string
+	var cur Expr = x
+	for {
+		sel, ok := cur.(*ESel)
+		if !ok {
+			break
+		}
+		names = append([]string{sel.Name}, names...)
+		cur = sel.X
+	}
+	ix, ok := cur.(*EIndex)
+	if !ok {
+		return nil
+	}
+	a, err := env.eval(ix.X)
+	if err != nil || a.T == nil || len(a.L) != 4 {
+		return nil
+	}
+	sl, ok := a.T.Underlying().(*types.Slice)
+	if !ok {
+		return nil
+	}
+	if _, opq := e.TI.opaqueSort(sl.Elem()); opq {
+		return nil
+	}
+	t := sl.Elem()
+	path := ""
+	for _, n := range names {
+		stt, ok := t.Underlying().(*types.Struct)
+		if !ok {
+			return nil
+		}
+		if _, opq := e.TI.opaqueSort(t); opq {
+			return nil
+		}
+		p, ft, ok := findField(stt, n)
+		if !ok {
+			return nil
+		}
+		path += p
+		t = ft
+	}
+	i, err := env.eval(ix.I)
+	if err != nil || len(i.L) != 1 || i.L[0].S != "Int" {
+		return nil
+	}
+	return &Loc{Kind: 'S', Key: typeStr(sl.Elem()), Ref: a.L[0].T, Idx: e.elemIdx(a.L[1].T, i.L[0].T), Path: path, T: t}
+}
+
 // valExpr wraps an already evaluated value as an expression.
 type valExpr struct{ v *Val }
 
@@ -727,7 +787,7 @@ func (env *Env) evalIndex(x *EIndex) (*Val, error) {
 		switch u := a.T.Underlying().(type) {
 		case *types.Slice:
 			if len(a.L) == 4 {
-				loc := &Loc{Kind: 'S', Key: typeStr(u.Elem()), Ref: a.L[0].T, Idx: addT(a.L[1].T, it), T: u.Elem()}
+				loc := &Loc{Kind: 'S', Key: typeStr(u.Elem()), Ref: a.L[0].T, Idx: e.elemIdx(a.L[1].T, it), T: u.Elem()}
 				return e.loadLoc(env.st, loc), nil
 			}
 		case *types.Map:
@@ -1277,7 +1337,7 @@ func (env *Env) havocTarget(st *State, x Expr) error {
 				if err != nil {
 					return err
 				}
-				loc := &Loc{Kind: 'S', Key: typeStr(u.Elem()), Ref: a.L[0].T, Idx: addT(a.L[1].T, i), T: u.Elem()}
+				loc := &Loc{Kind: 'S', Key: typeStr(u.Elem()), Ref: a.L[0].T, Idx: e.elemIdx(a.L[1].T, i), T: u.Elem()}
 				e.storeLoc(st, loc, e.freshVal(st, "hv", u.Elem()))
 				return nil
 			}
